@@ -512,7 +512,7 @@ WRAP_OWNERS = ("antismash/common/secmet/locations.py", "antismash/common/secmet/
 def r03_6(ctx: Ctx, rule: str = "R03.6") -> None:
     """ who may measure a distance linearly: the location API has a wrap point that defaults to None; detection on a
         circular record has to go through the record (which supplies its length) or pass the wrap point itself """
-    from ..flow import path_facts
+    from ..flow import inline_reaching, path_facts
     files = WRAP_SCOPE if ctx.tier == "quick" else [rel for rel in sorted(ctx.repo.modules) if rel not in WRAP_OWNERS]
     count = 0
     for rel in files:
@@ -532,7 +532,12 @@ def r03_6(ctx: Ctx, rule: str = "R03.6") -> None:
                                                                                "get_distance_between_features")
                 wrap = kwarg(call, "wrap_point")
                 positional = len(call.args) >= (3 if isinstance(call.func, ast.Name) else 2) and name != "get_distance_between_features"
-                linear_context = any(("circular" in txt(e) or "wrap" in txt(e)) and not t for e, t in path_facts(cfg, call))
+                def read_through(expr: ast.AST) -> str:
+                    # a local copy of the flag (`origin = self.circular_origin`) is the flag
+                    anchor = expr if hasattr(expr, "_parent") else call
+                    return txt(inline_reaching(cfg, anchor, expr, max_depth=1))
+                linear_context = any(not t and ("circular" in txt(e) or "wrap" in txt(e) or "circular" in read_through(e)
+                                                or "wrap" in read_through(e)) for e, t in path_facts(cfg, call))
                 ok = via_record or wrap is not None or positional or linear_context
                 how = "through the record" if via_record else "wrap point passed" if (wrap is not None or positional) else \
                     "only reached when not circular" if linear_context else "linear distance"
